@@ -83,7 +83,7 @@ func c20Value(h *zz.H, name string, kind int) *fpb.Value {
 		}
 		v.Value = &fpb.Value_BoolValue{BoolValue: &fpb.BoolValue{Value: h.Bool(name + "_val"), Distribution: &fpb.BoolValue_List{List: l}}}
 	case 7:
-		n := h.Range(name+"_nopt", 1, 3)
+		n := h.Range(name+"_nopt", 1, h.Param("NOPT", 3))
 		l := &fpb.StringList{Random: random}
 		for i := 0; i < n; i++ {
 			l.Options = append(l.Options, h.Atom(name+"_opt"))
